@@ -66,6 +66,7 @@ def run_one(tape: Any, cfg: Dict[str, Any], forbid: FrozenSet[str] = frozenset()
     g = Gen(tape, forbid)
     res = Result()
     with World(tape) as w:
+        w.spin_budget_s = 90.0       # real openssl child processes run inside the executor thread
         scen.sched_swarm(w, tape)
         host, ip, hkind = HOSTS[tape.weighted([4, 2, 2, 1], 'host')]
         if hkind != 'name' and not g.note('ip_literal_host'):
